@@ -2535,15 +2535,22 @@ class ProvDocument(ProvBundle):
                 # a plain file name, to be used as it is: characters that are
                 # URL syntax ('#', '?', ';', ':') belong to the name
                 path = location
-            fd, name = tempfile.mkstemp()
-            stream = os.fdopen(fd, "wb")
-            serializer.serialize(stream, **args)
-            stream.close()
-            if hasattr(shutil, "move"):
-                shutil.move(name, path)
-            else:
-                shutil.copy(name, path)
-                os.remove(name)
+            # Write to a temporary file next to the destination and rename it
+            # into place: the rename is atomic, so the destination either
+            # keeps its previous content or holds the complete serialization.
+            # (A temporary file elsewhere may be on another file system, in
+            # which case moving it is a copy that can fail half-way.)
+            fd, name = tempfile.mkstemp(dir=os.path.dirname(os.path.abspath(path)))
+            try:
+                with os.fdopen(fd, "wb") as stream:
+                    serializer.serialize(stream, **args)
+                os.replace(name, path)
+            except BaseException:
+                try:
+                    os.remove(name)
+                except OSError:
+                    pass
+                raise
 
     @staticmethod
     def deserialize(source=None, content=None, format="json", **args):
